@@ -1033,12 +1033,20 @@ class DistributedShampoo(torch.optim.Optimizer):
             # Based on the current block selector, mask lists of parameters and optimizer states.
             DistributedShampoo._mask_state_lists(state_lists, group)
 
-            # Check if gradient list is empty. If so, continue.
-            if not state_lists[MASKED_BLOCKED_GRADS]:
+            # Check if no block has a gradient on any rank. If so, continue.
+            if not any(state_lists[DISTRIBUTOR].global_grad_selector):
                 continue
 
             # Iterate group step counter and define Python scalar step.
             step = state_lists[STEP].add_(1)
+
+            # If only the blocks assigned to this rank have no gradient, there is nothing to compute locally,
+            # but this rank still has to take part in the communication of the other ranks' updates.
+            if not state_lists[MASKED_BLOCKED_GRADS]:
+                state_lists[DISTRIBUTOR].update_params(
+                    masked_blocked_search_directions=()
+                )
+                continue
             # NOTE: Wrap scalar of group[LR] into a 0D tensor to avoid PT2 recompilation;
             # Send 0D tensor to GPU in `non_blocking` to avoid QPS regression. Remove the gpu
             # tensor impl once PT2 supports cpu 0D tensor properly.
